@@ -39,6 +39,18 @@ CLAIMED = {
    text="Proof (Lean 4): C19_id_prefilter — for every non-empty Unicode id and both serialisations rocfl writes, the scan's id pre-filter (pattern search in inventory.json + JSON decoding, as repaired) extracts exactly the object's id, so exact lookups and glob filters see the real id; C19_staging_never_lists, C19_purged_not_found, C19_committed_is_found over the repository state machine. The directory walk itself (object root = directory holding a 0=ocfl_object_* file; no descent into object roots) is tied by the differential run only: histories with up to five objects, hostile ids, all layouts and no layout, where `ls`, `ls <glob>`, `ls -S` and opening every id are compared with the model and judged by an oracle that tracks the set of live ids. Known finding C19-K1 (object roots below a directory named 'extensions' are invisible).",
    note="Trusted: Lean kernel + 3 standard axioms; globset is modelled for literals, * and ? (byte-wise, as globset matches); regex/grep crates exercised, modelled by Scan.lean; Python oracle.",
    technique="Lean 4 theorem on the id pre-filter + frame theorems + differential history correspondence", design="§5-C19"),
+ "C03": dict(
+   text="Proof (Lean 4): over the script model of the install phase (write_new_version incl. rollback and spec-upgrade tail, write_new_object) C03_install_avoids_committed_version, C03_install_avoids_other_objects and C03_rollback_avoids_committed_version prove that no call touches anything inside another version directory of the object or inside another object's root; install_touched gives the exact set of touched paths (new version dir, root inventory, sidecar, declarations). The script model is compared call by call with the strace of every successful commit; every mutating system call of every operation (also failing ones) is judged by the `avoids` monitor (Lean, on the observed trace) and by an independent Python check plus byte snapshots of all committed version directories. Failure/kill points of the commit are enumerated by C04/C05.",
+   note="Trusted: Lean kernel + 3 standard axioms; script model validated by trace comparison; strace and the trace parser; staging-phase call order not modelled (judged by monitors on observed traces).",
+   technique="Lean 4 theorems on install scripts + trace monitors on strace of the real binary", design="§5-C03"),
+ "C12": dict(
+   text="Proof (Lean 4): C12_safe_root_is_inside (a mapped object root accepted by the guard resolves strictly below the storage root, for every root and every string), C12_new_object_confined (the install of a new object touches only the staged directory, the target and its missing parents, all inside the storage root), C12_not_inside_other_object, plus the witnesses C12_unguarded_escapes / C12_guard_refuses for the repaired defect. The guard decision of the model is compared with `rocfl commit` on hostile ids (flat-direct layout) and hostile --object-root values; every mutating system call of every operation is judged against {storage root, staging root}; existing objects must stay valid. Two genuine defects repaired (writes/purge outside the root, purge of a prefix directory).",
+   note="Trusted: Lean kernel + 3 standard axioms; lexical path resolution (no symlinks inside the storage root); strace + parser; vlib/ocflcheck.py.",
+   technique="Lean 4 theorems on path guards and install script + trace monitor on strace of the real binary", design="§5-C12"),
+ "C13": dict(
+   text="Proof (Lean 4), partial: over the lock-file protocol with an interleaving semantics for any number of processes and any schedule: C13_exclusion (no two processes ever hold one object's lock), C13_refused_changes_nothing, C13_released (no lock file once nobody is inside an operation), C13_holder_blocks, C13_different_objects_never_refused. Coverage (every object mutation of every locked operation lies between lock creation and removal; lock gone afterwards, also on failures) is decided on the strace of every operation; the same operations are re-run with the lock pre-held (must fail, change nothing) and as races of three processes. Residue: O_EXCL atomicity and Drop-on-unwind are assumed; serialisability across objects sharing an empty ancestor directory is only raced, not proved.",
+   note="Trusted: Lean kernel + 3 standard axioms; kernel O_EXCL semantics; strace + parser.",
+   technique="Lean 4 invariant proof over all interleavings of the lock protocol + trace oracle + races", design="§5-C13"),
 }
 NOT_YET = "not claimed yet: model/theorems for this property are still under construction in this round (see DESIGN.md §11 order of work)"
 checks = []
@@ -63,6 +75,7 @@ m = dict(version=1,
                     source_commits=[], add_only=True),
          engines=[dict(name="lean", path="/verif/lean", serves_properties=sorted(CLAIMED), kind_free_text="Lean 4 model, specs, theorems, compiled line-protocol driver"),
                   dict(name="harness", path="/verif/harness", serves_properties=sorted(CLAIMED), kind_free_text="Rust crate calling rocfl's public API in-process (path dependency on /repo)"),
+                  dict(name="strace", path="/verif/vlib/phys.py", serves_properties=["C03", "C04", "C05", "C12", "C13"], kind_free_text="real rocfl binary under strace: trace parser, single-fault and kill injection"),
                   dict(name="check", path="/verif/check", serves_properties=sorted(CLAIMED), kind_free_text="Python orchestrator: proof stage, axiom audit, generators, differential run, oracle, search, evidence")],
          checks=checks, not_applicable=na,
          notes="Fix commits in /repo are unguarded 'fix:' commits listed in known-findings.json; no hook commits exist.")
